@@ -7,6 +7,7 @@ import (
 	"path/filepath"
 	"strings"
 	"testing"
+	"time"
 	"unicode/utf8"
 
 	"verif/harness/core"
@@ -67,8 +68,18 @@ func seedSchemas(f *testing.F) {
 // fuzzer itself.
 func FuzzGenerate(f *testing.F) {
 	seedSchemas(f)
+	var c *core.Ctx
 	f.Fuzz(func(t *testing.T, data []byte) {
+		if c == nil {
+			c = core.New(t, "C18")
+		}
 		if len(data) > 1<<16 {
+			t.Skip()
+		}
+		// open known finding KF-C18-9 / KF-C10-3 (non-termination for reference cycles through
+		// array-items anyOf lists): that input region is skipped inside the target so that the
+		// campaign continues past it
+		if txt := string(data); strings.Contains(txt, "anyOf") && strings.Contains(txt, "items") && strings.Contains(txt, "$ref") && c.Avoid("refs.anyof_items_cycle") {
 			t.Skip()
 		}
 		name := "prog.json"
@@ -81,7 +92,14 @@ func FuzzGenerate(f *testing.F) {
 			cfg.MinSizedInts = cfgBits&2 != 0
 			cfg.OnlyModels = cfgBits&4 != 0
 			cs := &gen.Case{Files: []gen.FileText{{RelPath: name, Text: string(data)}}, Inputs: []string{name}, Config: cfg}
-			res := gen.Run(cs)
+			done := make(chan gen.Result, 1)
+			go func() { done <- gen.Run(cs) }()
+			var res gen.Result
+			select {
+			case res = <-done:
+			case <-time.After(20 * time.Second):
+				fuzzViolation(t, "C18", &core.Replay{Check: "cli-hang", Case: cs, Note: "native fuzz input", Expected: "status 0 with output, or non-zero status with a diagnostic and nothing written; never a panic or hang"}, "the generator did not return within 20 s on a small input (native fuzz input)")
+			}
 			if res.Panic != "" {
 				fuzzViolation(t, "C18", &core.Replay{Check: "inproc", Case: cs, Note: "native fuzz input", Expected: "status 0 with output, or non-zero status with a diagnostic and nothing written; never a panic"}, "the generator panicked (native fuzz input): "+res.Panic)
 			}
